@@ -1373,3 +1373,7 @@ pub enum NextRowError {
     #[error("Row deserialization error: {0}")]
     RowDeserializationError(#[from] DeserializationError),
 }
+
+// Verification hook (inert unless built by `cargo kani`, which sets --cfg kani).
+#[cfg(kani)]
+mod verif_kani;
